@@ -15,8 +15,9 @@ C33 — symmetry reduction across an ELECTRIC plane (config.symmetry[a] = -1), o
 The reduced state / materials / sources are the restriction of the full arrays to the upper half (`upperV`,
 `upperMat`).  Ops: those of `YeeIO` (`fwd`, …) plus
 
-  redfwd <axis> r <full request>     run `nsteps` forward steps of the REDUCED configuration on the restricted state,
-                                     reply = reduced E, H;  `error` when the cell count along the axis is odd.
+  redfwd <axes> r <full request>     `axes` = distinct digits of the electric symmetry axes ("0", "12", "012"): run `nsteps`
+                                     forward steps of the REDUCED configuration (single-axis reduction once per axis) on the
+                                     restricted state, reply = reduced E, H;  `error` when a cell count along an axis is odd.
 -/
 import FdtdxModel.YeeIO
 namespace Fdtdx.C33
@@ -71,24 +72,37 @@ def cellsAlong (axis : Nat) (cf : Cfg α) : Nat :=
 
 end
 
+/-- the symmetric axes of a request: a non-empty string of distinct digits out of 0,1,2 (`"0"`, `"01"`, `"012"`, …) -/
+def parseAxes (s : String) : Option (List Nat) :=
+  let l := s.toList.mapM fun ch =>
+    if ch == '0' then some 0 else if ch == '1' then some 1 else if ch == '2' then some 2 else none
+  match l with
+  | some (a :: as) => if (a :: as).eraseDups.length == (a :: as).length then some (a :: as) else none
+  | _ => none
+
+open YeeIO in
+/-- reduce a request across one electric plane; `none` when the cell count along the axis is odd -/
+def reduceReq (a : Nat) (r : Req Float) : Option (Req Float) :=
+  let n := cellsAlong a r.cf
+  if n % 2 != 0 then none else
+  let m := n / 2
+  some { cf := reduceCfg a r.cf, m := upperMat a m r.m,
+         src := r.src.map (fun p => (upperV a m p.1, upperV a m p.2)),
+         nsteps := r.nsteps, E := upperV a m r.E, H := upperV a m r.H }
+
 open Proto YeeIO in
-/-- `redfwd axis r …full request…` -/
+/-- `redfwd axes r …full request…`: several electric planes = the single-axis reduction applied once per axis
+(place_objects reduces every `config.symmetry` axis independently and adds one PEC wall per electric plane) -/
 def redOp (ax : String) (rest : List String) : String :=
-  match parseNat ax with
+  match parseAxes ax with
   | none => "bad-op"
-  | some a =>
-    if a > 2 then "bad-op" else
+  | some axes =>
     match (pReq (α := Float)).run rest with
     | none => "bad-op"
     | some (r, _) =>
-      let n := cellsAlong a r.cf
-      if n % 2 != 0 then "error" else
-      let m := n / 2
-      let rr : Req Float :=
-        { cf := reduceCfg a r.cf, m := upperMat a m r.m,
-          src := r.src.map (fun p => (upperV a m p.1, upperV a m p.2)),
-          nsteps := r.nsteps, E := upperV a m r.E, H := upperV a m r.H }
-      reply rr (runFwd rr)
+      match axes.foldlM (fun q a => reduceReq a q) r with
+      | none => "error"
+      | some rr => reply rr (runFwd rr)
 
 def handle : List String → String
   | "redfwd" :: ax :: "r" :: rest => redOp ax rest
